@@ -51,3 +51,13 @@ func Walk(v reflect.Value) int {
 
 func keys(v reflect.Value) int  { return len(v.MapKeys()) }
 func items(v reflect.Value) int { return v.Len() }
+
+// Wrap boxes a value after testing that there is one.
+func Wrap(v reflect.Value) reflect.Value {
+	arr := reflect.MakeSlice(reflect.TypeOf([]interface{}{}), 1, 1)
+	if v.IsValid() {
+		arr.Index(0).Set(v)
+		arr = reflect.Append(arr, v)
+	}
+	return arr
+}
